@@ -629,13 +629,25 @@ def generate(prop, run_seed, tier='quick', tolerate=frozenset()):
     if crng.random() < .1:
         # very long waits and frames (the shared timer grows large; all
         # values stay exactly representable)
-        big = [65000, 65536, 65537, 70000, 131072, 2 ** 20, 40000]
+        big = [65000, 65536, 65537, 70000, 131072, 2 ** 20, 40000, 2 ** 30,
+               2 ** 31 + 1]
         for co in coros:
             co['yields'] = [crng.choice(big) if (y != 'N' and isinstance(
                 y, (int, float)) and not isinstance(y, bool) and y > 0
                 and crng.random() < .6) else y for y in co['yields']]
-        dts = crng.sample([1, 500, 30000, 65536, 66000, 2 ** 17, 0.5, 536],
-                          crng.randint(2, 4))
+        dts = crng.sample([1, 500, 30000, 65536, 66000, 2 ** 17, 0.5, 536,
+                           0, 0.25, 2 ** 30, 2 ** 29],
+                          crng.randint(2, 5))
+    elif crng.random() < .1:
+        # frames a hair short of a deadline (and the hair that completes
+        # it): "never earlier" with no tolerance; still exact in binary
+        hair = crng.choice([2.0 ** -40, 2.0 ** -33, 2.0 ** -45])
+        dts = [1 - hair, hair, 0.5 - hair, 1, hair, 2 - hair]
+        for co in coros:
+            co['yields'] = [crng.choice([1, 2, 0.5, 1, 3]) if (
+                y != 'N' and isinstance(y, (int, float))
+                and not isinstance(y, bool) and y > 0) else y
+                for y in co['yields']]
     cfg = {'in_world': crng.random() < .33, 'coros': coros}
     life = prop == 'C09'
     w = dict(frame=6, start=2, kill=.4, pkill=.1, state=.3, pstate=.1,
